@@ -471,7 +471,30 @@ def case_hash(c):
 
 
 def finish(ctx, level, coverage, assumptions, extra=None):
-    """Write evidence/<id>.json, print verdict lines, exit."""
+    """Write evidence/<id>.json, print verdict lines, exit.
+    A plug-in that decides one property with several engines sets ctx.defer = True for all
+    but the last standard_check: the coverage is then carried over (counts summed, lists
+    concatenated, the rest kept under "part_<n>") instead of being written."""
+    carry = getattr(ctx, "carry", None)
+    if carry:
+        for k, v in carry.items():
+            if isinstance(v, bool) or k not in coverage:
+                coverage.setdefault(k, v)
+            elif isinstance(v, (int, float)) and isinstance(coverage[k], (int, float)):
+                coverage[k] = coverage[k] + v
+            elif isinstance(v, list) and isinstance(coverage[k], list):
+                coverage[k] = v + coverage[k]
+            elif isinstance(v, dict) and isinstance(coverage[k], dict):
+                merged = dict(v)
+                merged.update(coverage[k])
+                coverage[k] = merged
+            elif isinstance(v, str) and isinstance(coverage[k], str) and v != coverage[k]:
+                coverage[k] = v + " || " + coverage[k]
+    if getattr(ctx, "defer", False):
+        ctx.carry = coverage
+        ctx.carry_assumptions = list(getattr(ctx, "carry_assumptions", [])) + list(assumptions)
+        return
+    assumptions = list(getattr(ctx, "carry_assumptions", [])) + list(assumptions)
     ev = {
         "property_id": ctx.prop,
         "tier": ctx.tier if ctx.tier in ("quick", "thorough") else "quick",
